@@ -142,6 +142,14 @@ def optimisation_route(c, which, prior_kind):
     c.eq('gradient_is_negative_gradient_of_the_density', call.gradfunc(v), -dens.gradient(v))
     c.eq('estimate_is_the_optimisers_result_unchanged', np.asarray(est), call.x)
     c.holds('estimate_wrapped_with_geometry', isinstance(est, cuqi.array.CUQIarray) and est.geometry == dens.geometry)
+    c.eq('default_start_is_the_ones_vector', np.asarray(call.x0, dtype=float), np.ones(n))
+    # the optional start point is handed to the optimiser as given
+    x0 = c.vec('x0', n)
+    est2 = BP.MAP(disp=False, x0=x0) if which == 'MAP' else BP.ML(disp=False, x0=x0)
+    call2 = StubSolver.calls[-1]
+    c.eq('given_start_point_is_passed_to_the_optimiser', call2.x0, x0)
+    c.eq('objective_with_given_start_is_still_the_negative_log_density', call2.func(v), -dens.logd(v))
+    c.eq('estimate_with_given_start_is_the_optimisers_result', np.asarray(est2), call2.x)
 
 
 def optimisation_native(c, prior_kind):
